@@ -120,6 +120,10 @@ def rule_r2(ctx):
                 rr.ok(what)
             else:
                 rr.fail("C08-R2|lookup|get-none-unchecked", f"{T.convert_fn.where()}: the dispatch lookup uses .get() and the missing-key result is not turned into a raise", what=what)
+    elif T.table_how == "call-with-default":
+        rr.fail("C08-R2|lookup|function-default-returns", f"{T.convert_fn.where()}: the dispatch function {T.table_name} does not end in a raise for the node classes it does not list: an unknown statement kind is handled by a default", what=what)
+    elif T.table_how == "call":
+        rr.ok(what, sample={"rule": "C08-R2", "lookup": ast.unparse(T.table_node)[:60], "verdict": "dispatch function: the default case raises"})
     else:
         rr.ok(what, sample={"rule": "C08-R2", "lookup": ast.unparse(T.table_node)[:60], "verdict": "subscript: a missing key raises KeyError"})
     # (b) every try statement of the repository
